@@ -13,7 +13,8 @@ Local Arguments Nat.leb : simpl never.
 
 Lemma ty_eqb_eq a b : ty_eqb a b = true <-> a = b.
 Proof.
-  revert b; induction a as [lo hi| | |a IH|a IH| | |a IH|n|n]; intros [lo' hi'| | |b|b| | |b|m|m]; cbn [ty_eqb];
+  revert b; induction a as [lo hi| | |a IH|a IH| | |a IH| |k r vt IHv rest IHr|n|n];
+    intros [lo' hi'| | |b|b| | |b| |k' r' vt' rest'|m|m]; cbn [ty_eqb];
     split; intros H; try discriminate; try reflexivity.
   - apply andb_true_iff in H as [H1 H2]. apply Z.eqb_eq in H1, H2. congruence.
   - inversion H; subst. now rewrite !Z.eqb_refl.
@@ -23,6 +24,10 @@ Proof.
   - inversion H; subst. now apply IH.
   - apply IH in H. congruence.
   - inversion H; subst. now apply IH.
+  - apply andb_true_iff in H as [H H4]. apply andb_true_iff in H as [H H3]. apply andb_true_iff in H as [H1 H2].
+    apply str_eqb_eq in H1. apply Bool.eqb_prop in H2. apply IHv in H3. apply IHr in H4. congruence.
+  - inversion H; subst. rewrite str_eqb_refl, eqb_reflx. cbn [andb].
+    rewrite (proj2 (IHv vt') eq_refl), (proj2 (IHr rest') eq_refl). reflexivity.
   - apply str_eqb_eq in H. congruence.
   - inversion H; subst. apply str_eqb_refl.
   - apply str_eqb_eq in H. congruence.
@@ -31,6 +36,45 @@ Qed.
 
 Lemma ty_eqb_refl a : ty_eqb a a = true.
 Proof. now apply ty_eqb_eq. Qed.
+
+(* ---------------------------------------------------------------------------------------------- *)
+(* typeAndInit: on the fragment the type a named argument is checked against is the declared type - in particular a
+   Struct member keeps its key, so a member that may be left out positionally may be left out by name *)
+
+Lemma type_and_init_id t : type_and_init t = t.
+Proof.
+  induction t as [lo hi| | |a IH|a IH| | |a IH| |k r vt IHv rest IHr|n|n]; cbn [type_and_init]; congruence.
+Qed.
+
+Lemma inst_type_and_init t v : inst (type_and_init t) v = inst t v.
+Proof. now rewrite type_and_init_id. Qed.
+
+Lemma struct_elems_type_and_init t : struct_elems (type_and_init t) = struct_elems t.
+Proof. now rewrite type_and_init_id. Qed.
+
+(* which members of a Struct may be left out is not changed by typeAndInit (stated without using that it is the identity:
+   this is the fact a change of the key derivation breaks) *)
+Lemma struct_reqs_type_and_init t : struct_reqs (type_and_init t) = struct_reqs t.
+Proof.
+  induction t as [lo hi| | |a IH|a IH| | |a IH| |k r vt IHv rest IHr|n|n]; try reflexivity.
+  cbn [type_and_init struct_reqs]. f_equal. exact IHr.
+Qed.
+
+(* the Struct type shown by the signature of the named constructor is the one the dispatch tests with *)
+Lemma init_type_elems info : struct_elems (init_type info) = init_struct info.
+Proof.
+  unfold init_type, init_struct. induction (ai_attrs info) as [|a r IH]; [reflexivity|].
+  cbn [fold_right map struct_elems]. now rewrite IH.
+Qed.
+
+Lemma init_type_inst info v : inst (init_type info) v = struct_inst (init_struct info) v.
+Proof.
+  rewrite <- init_type_elems. unfold init_type. destruct (ai_attrs info) as [|a r]; reflexivity.
+Qed.
+
+Lemma init_struct_plain info :
+  init_struct info = map (fun a => (a_name a, negb (is_opt_attr a), inst (a_type a))) (ai_attrs info).
+Proof. unfold init_struct. apply map_ext. intros a. now rewrite type_and_init_id. Qed.
 
 (* induction principle for the nested type `value` *)
 Section ValueInd.
@@ -671,7 +715,7 @@ Proof.
   assert (Hok : forallb (elem_ok h) (init_struct info) = true <->
                 forall a, In a (ai_attrs info) ->
                           match hget h (a_name a) with Some v => inst (a_type a) v = true | None => is_opt_attr a = true end).
-  { unfold init_struct. rewrite forallb_forall. split.
+  { rewrite init_struct_plain. rewrite forallb_forall. split.
     - intros H a Hin. specialize (H _ (in_map _ _ a Hin)). unfold elem_ok in H. cbn [ekey fst snd] in H.
       destruct (hget h (a_name a)); [exact H|]. now rewrite negb_involutive in H.
     - intros H e He. apply in_map_iff in He as (a & <- & Hin). specialize (H a Hin). unfold elem_ok. cbn [ekey fst snd].
